@@ -118,7 +118,7 @@ def lenv(sh):
 QUICK_SHAPES3 = [[2, 2, 2], [1, 2, 2], [2, 1, 2], [1, 2, 1]]
 
 
-def pfc_family(prop, tag, entry, quick_bs=(2, 3), timeout_q=420, timeout_t=1500, extra_defs=None, quick_shapes=None, sym_n2=True, thorough_extra=True, deep4=False, **kw):
+def pfc_family(prop, tag, entry, quick_bs=(2, 3), timeout_q=420, timeout_t=1500, extra_defs=None, quick_shapes=None, sym_n2=True, thorough_extra=True, deep4=False, n5=True, **kw):
     """the standard parameter sweep of one PFC harness entry:
        quick   : N=2 symbolic lengths (all shapes) + selected N=3 shapes, bucket sizes quick_bs
        thorough: every N=3,L=2 shape x bucketsize {2,3,4}; N=4,L=2 shapes; N=3,L=3 shapes; N=5,L=1"""
@@ -147,7 +147,7 @@ def pfc_family(prop, tag, entry, quick_bs=(2, 3), timeout_q=420, timeout_t=1500,
                 mk(tag, 4, 2, bs, sh, T, timeout_t)
         for sh in [[3, 3, 3], [1, 2, 3], [3, 1, 2]]:
             mk(tag, 3, 3, 2, sh, T, timeout_t)
-        mk(tag, 5, 1, 2, [1, 1, 1, 1, 1], T, timeout_t)
+        if n5: mk(tag, 5, 1, 2, [1, 1, 1, 1, 1], T, timeout_t)
     return obs
 
 
@@ -344,7 +344,7 @@ def c14():
     obs = []
     for ka in (0, 1, 2):
         obs += pfc_family('C14', 'pfc.aba.q%d' % ka, 'h_pfc_c14', quick_bs=(2,), quick_shapes=[[1, 2, 2]] + ([[1, 2, 1]] if ka == 2 else []), sym_n2=False, timeout_q=900,
-                          extra_defs={'KA': ka}, thorough_extra=(ka == 0))
+                          extra_defs={'KA': ka}, thorough_extra=(ka == 0), n5=False)
     obs += pfc_family('C14', 'pfc.state', 'h_pfc_c14s', quick_bs=(2, 3), quick_shapes=[[1, 2, 2]], sym_n2=False, timeout_q=600, thorough_extra=False)
     return obs
 
@@ -413,19 +413,20 @@ def pool_ob(name, prop, w, t, k, unwind, tier=Q, timeout=1500, variant=None, **k
     defs = {'W': w, 'T': t}
     if variant: defs[variant] = None
     cdefs = {'VERIF_MAXT': w + 1, 'VERIF_K': k, 'VERIF_MAXM': 2 + w + 1, 'IR2C_MAXELEMS': 16, 'IR2C_MAXBYTES': 16}
-    return O(name, prop, 'h_pool.cpp', 'h_pool', [], defs=defs, cdefs=cdefs, unwind=unwind, tier=tier, timeout=timeout, engine='E2', e2_setup='h_pool_setup', mem_gb=8,
+    return O(name, prop, 'h_pool.cpp', 'h_pool', [], defs=defs, cdefs=cdefs, unwind=unwind, tier=tier, timeout=timeout, engine='E2', e2_setup='h_pool_setup', mem_gb=(8 if tier == Q else 16),
              bounds='%d worker(s), %d task(s)%s, every schedule with at most %d context switches (pre-emption at lock/wait/join points), loops unwound %d times (checked)' %
                     (w, t, ', last task stops the pool' if variant else '', k - 1, unwind), **kw)
 
 
 def c11():
     obs = []
-    for nm, w, t, k, u, tier, to, var in [('w1.t1.k4', 1, 1, 4, 4, Q, 2400, None), ('w1.t0.k4', 1, 0, 4, 3, Q, 2400, None), ('w1.t1.k5', 1, 1, 5, 4, T, 7200, None), ('w1.t1.k5.laststops', 1, 1, 5, 4, T, 10800, 'LAST_TASK_STOPS'),
+    for nm, w, t, k, u, tier, to, var in [('w1.t1.k3', 1, 1, 3, 4, Q, 840, None), ('w1.t0.k3', 1, 0, 3, 3, Q, 840, None), ('w1.t1.k4', 1, 1, 4, 4, T, 7200, None), ('w1.t0.k4', 1, 0, 4, 3, T, 7200, None),
+                                            ('w1.t1.k5', 1, 1, 5, 4, T, 7200, None), ('w1.t1.k5.laststops', 1, 1, 5, 4, T, 10800, 'LAST_TASK_STOPS'),
                                             ('w1.t2.k6', 1, 2, 6, 5, T, 10800, None), ('w2.t1.k5', 2, 1, 5, 4, T, 10800, None)]:
         o = pool_ob('c11.pool.' + nm, 'C11', w, t, k, u, tier=tier, timeout=to, variant=var)
         o.defs['RACE'] = None
         o.cdefs['VERIF_NREG'] = 3 + w
-        o.mem_gb = 30          # the lockset monitor doubles the formula: one C11 query at a time (memory gate)
+        o.mem_gb = 24 if tier == Q else 30     # the lockset monitor doubles the formula: the two quick queries fit side by side, the others run one at a time
         o.bounds += '; every load/store of the thread code that touches the pool, a worker or the task counters is checked by the lockset monitor'
         obs.append(o)
     return obs
